@@ -196,12 +196,15 @@ def file_case(draw):
     edge_seg = draw(tag_segment(False).filter(lambda s: len(s["lines"]) == 1)) if edge != "none" else None
     edge_pos = draw(st.integers(4090, 4096)) if edge == "in" else draw(st.integers(4096, 4100))
     tail = draw(st.lists(tag_segment(False), min_size=0, max_size=2))
-    snippet = draw(st.sampled_from(["none", "none", "head", "tail"]))
+    snippet = draw(st.sampled_from(["none", "none", "head", "tail", "straddle"]))
+    if snippet == "straddle":
+        edge, edge_seg = "none", None
+    straddle = (draw(st.integers(1, 2)), draw(st.integers(1, 16)))
     bad = draw(st.sampled_from(["none", "none", "none", "head", "tail"]))
     where = draw(st.sampled_from(["file", "file", "dotlicense"]))
     nonascii_filler = draw(st.booleans())
     return {"eol": eol, "head": head, "edge": edge, "edge_seg": edge_seg, "edge_pos": edge_pos, "tail": tail,
-            "snippet": snippet, "bad": bad, "where": where, "nonascii_filler": nonascii_filler}
+            "snippet": snippet, "bad": bad, "where": where, "nonascii_filler": nonascii_filler, "straddle": straddle}
 
 
 def build_file(c):
@@ -246,6 +249,13 @@ def build_file(c):
                     out += ("x" * k + eol).encode()
         assert len(out) == n_bytes, (len(out), n_bytes)
 
+    if c["snippet"] == "straddle":
+        # the marker text itself crosses a multiple of 4096 bytes
+        k, r = c["straddle"]
+        start = k * WINDOW - r - 2
+        if start >= len(out):
+            pad_to(start)
+            add_line("# SPDX-SnippetBegin")
     if c["edge"] == "in":
         line = c["edge_seg"]["lines"][0]
         lb = len(line.encode("utf-8"))
